@@ -119,7 +119,9 @@ def header_lookup_forward_only(ck, rule):
     FWD = T.mk_eq(T.mk_attr(V(fn.self_name), "orientation"), C("+"))
     REV = T.mk_attr(V(fn.self_name), "reverseStrand")
     seen = {}
+    n_paths = 0
     for pa in explore(ck, fn, unroll=(0, 1)):
+        n_paths += 1
         for t, facts, node, kind in path_terms(pa):
             for x in T.subterms(t):
                 if not (x[0] == "mcall" and x[2] == "index" and x[1][0] == "attr" and x[1][2] == "positions"):
@@ -145,7 +147,9 @@ def header_lookup_forward_only(ck, rule):
                          "strand: QryStartPos / QryEndPos of a '-' record are length - 1 - p, not label coordinates - ValueError '... is not in "
                          "list' between the passes, the whole run ends without output (every multi-pass mode, any partially aligned '-' record)",
                          found=key[1], required="under orientation == '+' (the '-' branch cuts by the label numbers of the aligned pairs)")
-    ck.floor(rule + " header coordinates looked up in the label list", len(sites), 2)
+    ck.floor(rule + " paths of getUnalignedFragments explored", n_paths, 4)
+    if not sites:
+        ck.ok(rule, "getUnalignedFragments:index", fn.where, "no header coordinate is looked up in the label list at all")
 
 
 def pop_loops_test_emptiness(ck, rule):
